@@ -41,4 +41,5 @@ Spec == Init /\ [][Next]_mcvars
 RoundTrip == (out # Pending /\ case.ast.k = "CmpOp" /\ out.o = "val") => out.r = Bool(TRUE)
 HalfEven == /\ RoundAt(Num(5, 2), 0) = IntV(2) /\ RoundAt(Num(7, 2), 0) = IntV(4) /\ RoundAt(Num(0 - 5, 2), 0) = IntV(0 - 2)
             /\ RoundAt(Num(125, 100), 1) = Num(12, 10) /\ RoundAt(Num(135, 100), 1) = Num(14, 10) /\ RoundAt(IntV(15), 0 - 1) = IntV(20) /\ RoundAt(IntV(25), 0 - 1) = IntV(20)
+ASSUME HalfEven
 =============================================================================
